@@ -108,8 +108,10 @@ class Check:
         evd = dict(property_id=self.pid, tier=self.tier, seed=self.seed, level=self.level, coverage=cov,
                    assumptions=self.assumptions, wall_s=round(time.time() - self.t0, 2),
                    violations=len(by_key))
-        os.makedirs(os.path.join(ROOT, "evidence"), exist_ok=True)
-        with open(os.path.join(ROOT, "evidence", self.pid + ".json"), "w") as f:
+        # evidence/ describes /repo itself; runs against another checkout (VERIF_REPO, used for seeded changes) write theirs aside
+        edir = "evidence" if os.environ.get("VERIF_REPO", "/repo") == "/repo" else os.path.join(".work", "evidence_other")
+        os.makedirs(os.path.join(ROOT, edir), exist_ok=True)
+        with open(os.path.join(ROOT, edir, self.pid + ".json"), "w") as f:
             json.dump(evd, f, indent=1, default=str)
         print("%s %s: %s  (states=%d transitions=%d traces=%d evaluations=%d distinct=%d wall=%.1fs)" % (
             self.pid, self.tier, "HELD" if rc == 0 else "VIOLATED", self.states, self.transitions, self.traces,
